@@ -16,6 +16,7 @@ const pmPkg = "varutil/plainmap"
 func init() {
 	register(&PropDef{ID: "C20", Title: "Config and translation maps survive flattening, JSON and loading unchanged", Rules: rulesC20,
 		Explanation: "Decided (structural necessary conditions, packages plainmap, fsi18loader, i18mem): R1 the constant used to join keys when flattening (recursive map and JSON), to split them when rebuilding and to find the nesting point when emitting JSON is one and the same one-character string; R2 in the JSON object walk a string leaf reaches the result map only as the result of an unescaping function (jsonparser.ParseString/Unescape, strconv.Unquote, encoding/json) on its nil-error edge — never the raw bytes; number leaves are stored raw; R3 the emitter's escaper delegates to encoding/json (not to Go-syntax quoting), and every non-constant piece of the emitted text is either an escaped string, a recursive emission, the text so far or indentation; R4 the translation table is only touched under its RW mutex, and it is never replaced wholesale from a copy taken in an earlier critical section (read-copy-publish must be one hold); R5 the loader's callback returns read and parse errors and hands the parsed map to Set; Load runs, waits, then returns the loop's error list; R6 the leaf switch recurses on objects and stores exactly string and number leaves. " +
+			"R7 the walker behind fsi18loader.Load looks at entry names only to recognise '.' and '..' and leaves a listing loop early only with a non-nil error (no translation file is skipped by name). " +
 			"NOT decided: that flatten/rebuild and write/read are mutually inverse for all maps (round-trip equalities); jsonparser's and encoding/json's own correctness.",
 	})
 }
@@ -454,4 +455,7 @@ func rulesC20(c *Ctx) {
 		}
 	}
 	c.Check(okL, "R5", "fsi18loader.Load runs, waits, reports", load.Pos(), "Run -> Wait -> return ToError(Errors())", "Load does not wait for the walk before collecting (or does not return) the loop's errors")
+
+	// ---- R7 the walker behind Load visits every entry ----
+	c.Floor("R7", ruleWalkersVisitAll(c, "R7"), 2)
 }
